@@ -55,7 +55,9 @@ def panicFree : List String := [
   ".clear", ".disable_abundance", ".remove_hash",
   -- check_compatible returns a Result that is only inspected with is_ok
   ".check_compatible", ".is_ok",
-  -- pure table lookups / hashing of a byte slice
+  -- hashing of a byte slice; reduced-alphabet look-ups: `HashMap<u8, u8>::get` with a default, total on
+  -- every byte value - the argument is a C `char`, so 0x80..0xff (negative chars) are in contract; the
+  -- run-time side calls both exports on all 256 values on every run (scenario class `all256`)
   "_hash_murmur", "aa_to_dayhoff", "aa_to_hp",
   -- error channel itself: thread-local RefCell, never borrowed re-entrantly; Display of the stored
   -- error; a total `match` (T-codes); SourmashStr::free is `String::from_raw_parts` + drop
